@@ -40,6 +40,26 @@ example : ¬ BadQuad ⟨.bnode ['a'], .iri ['p'], .lit ['x'] ['d'], some (.bnode
   · simp [components] at hc
     rcases hc with rfl | rfl | rfl | rfl <;> cases hb
 
+/-- the same, spelled out for the current source (`flag_predicate_must_be_iri` below): `Unsupported`
+⇔ some quad has a predicate that is not an IRI, or a quoted triple / variable among its components -/
+theorem unsupported_iff_explicit (hflag : Gen.predicateMustBeIri = true) (H : Str → Str) (td : Nat → Nat → Bool)
+    (pl : Nat) (D : List Quad) :
+    relabelWith H td pl D = .error .unsupported ↔
+      ∃ q ∈ D, isIri q.p = false ∨ ∃ c ∈ components q, (isTriple c.1 || isVar c.1) = true := by
+  rw [unsupported_iff]
+  have hp : ∀ p : Term, predicateRejected p = true ↔ isIri p = false := by
+    intro p
+    unfold predicateRejected
+    rw [hflag]
+    cases p <;> simp [isBnode, isIri]
+  constructor
+  · rintro ⟨q, hq, h | h⟩
+    · exact ⟨q, hq, Or.inl ((hp q.p).mp h)⟩
+    · exact ⟨q, hq, Or.inr h⟩
+  · rintro ⟨q, hq, h | h⟩
+    · exact ⟨q, hq, Or.inl ((hp q.p).mpr h)⟩
+    · exact ⟨q, hq, Or.inr h⟩
+
 theorem normalize_unsupported_iff (H : Str → Str) (td : Nat → Nat → Bool) (pl : Nat) (D : List Quad) :
     normalizeWith H td pl D = .error .unsupported ↔ ∃ q ∈ D, BadQuad q := by
   rw [← unsupported_iff H td pl D]
@@ -124,7 +144,7 @@ def modelsAgree (D : List Quad) : Bool :=
 /-- **the rule itself**: with the repaired body (`path1.len() <= path2.len() && path1 < path2`) the
 test the implementation applies at 5.4.4 / 5.4.5 (`!chosen_path.is_empty() && smaller_path(..)`) IS
 the skip rule of the Recommendation, for all paths (kernel-checked) -/
-theorem skip_rule_as_specified (hcode : Gen.smallerPathLengthFirst = false) (chosen path : Str) :
+theorem skip_rule_of_flag (hcode : Gen.smallerPathLengthFirst = false) (chosen path : Str) :
     (!chosen.isEmpty && smallerPath chosen path) = Rdfc10Spec.skipRule Rdfc10Spec.Deviations.none chosen path := by
   have hlt : strLt chosen path = Rdfc10Spec.cpLess chosen path := by
     unfold strLt
@@ -141,7 +161,7 @@ theorem skip_rule_as_specified (hcode : Gen.smallerPathLengthFirst = false) (cho
 
 /-- **regression test for the repair** (native evaluation, real SHA-256): under the repaired rule the
 dataset that used to diverge is canonicalised to exactly the bytes the Recommendation prescribes -/
-theorem C06_witness_agrees (hcode : Gen.smallerPathLengthFirst = false) :
+theorem witness_agrees_of_flag (hcode : Gen.smallerPathLengthFirst = false) :
     ∃ a, normalizeDefault witness = .ok a ∧ Rdfc10Spec.canonicalNQuads Sha2.sha256Hex witness = some a := by
   have h0 : (modelsAgree witness || Gen.smallerPathLengthFirst) = true := by native_decide
   have h : modelsAgree witness = true := by simpa [hcode] using h0
@@ -168,16 +188,45 @@ def witnessFamily : List (List Quad) :=
        ⟨b ("a" ++ toString (len - 1)), .iri "x:q0".toList, b "y", none⟩,
        ⟨b "m", .iri "x:q0".toList, b "y", some (.iri "x:g0".toList)⟩]
 
-theorem C06_family_agrees (hcode : Gen.smallerPathLengthFirst = false) :
+theorem family_agrees_of_flag (hcode : Gen.smallerPathLengthFirst = false) :
     ∀ D ∈ witnessFamily, modelsAgree D = true := by
   have h0 : (witnessFamily.all modelsAgree || Gen.smallerPathLengthFirst) = true := by native_decide
   have h : witnessFamily.all modelsAgree = true := by simpa [hcode] using h0
   exact fun D hD => List.all_eq_true.mp h D hD
 
+/-! #### audited, unconditional: what the source says NOW
+
+The two flags are regenerated from rdfc10.rs on every run.  The next two theorems pin their values:
+a regression of the source (length-first `smaller_path`, or step 2 no longer rejecting non-IRI
+predicates) flips a flag and these obligations FAIL to build — they are listed in propcfg `theorems`. -/
+
+theorem flag_smaller_path_is_spec_rule : Gen.smallerPathLengthFirst = false := rfl
+
+theorem flag_predicate_must_be_iri : Gen.predicateMustBeIri = true := rfl
+
+/-- `Unsupported` ⇔ non-IRI predicate ∨ quoted triple ∨ variable (current source) -/
+theorem unsupported_iff_now (H : Str → Str) (td : Nat → Nat → Bool) (pl : Nat) (D : List Quad) :
+    relabelWith H td pl D = .error .unsupported ↔
+      ∃ q ∈ D, isIri q.p = false ∨ ∃ c ∈ components q, (isTriple c.1 || isVar c.1) = true :=
+  unsupported_iff_explicit flag_predicate_must_be_iri H td pl D
+
+/-- the pruning test of `rdfc10.rs` IS the skip rule of RDFC-1.0 4.8.3 steps 5.4.4.3 / 5.4.5.5, for all paths -/
+theorem skip_rule_as_specified (chosen path : Str) :
+    (!chosen.isEmpty && smallerPath chosen path) = Rdfc10Spec.skipRule Rdfc10Spec.Deviations.none chosen path :=
+  skip_rule_of_flag flag_smaller_path_is_spec_rule chosen path
+
+/-- regression test for repair 33fee4b: the former 24-quad witness gets the Recommendation's bytes -/
+theorem C06_witness_agrees :
+    ∃ a, normalizeDefault witness = .ok a ∧ Rdfc10Spec.canonicalNQuads Sha2.sha256Hex witness = some a :=
+  witness_agrees_of_flag flag_smaller_path_is_spec_rule
+
+theorem C06_family_agrees : ∀ D ∈ witnessFamily, modelsAgree D = true :=
+  family_agrees_of_flag flag_smaller_path_is_spec_rule
+
 /-- **guard against the regression**: were `smaller_path` to compare lengths first again (flag
 `true`), both models still succeed on the witness and their canonical N-Quads differ (the
 implementation then calls the doubly linked node `c14n9`, the Recommendation `c14n10`) -/
-theorem C06_witness (hcode : Gen.smallerPathLengthFirst = true) :
+theorem witness_differs_if_length_first (hcode : Gen.smallerPathLengthFirst = true) :
     ∃ a b, normalizeDefault witness = .ok a ∧
       Rdfc10Spec.canonicalNQuads Sha2.sha256Hex witness = some b ∧ a ≠ b := by
   have h0 : (modelsDiffer witness || !Gen.smallerPathLengthFirst) = true := by native_decide
@@ -194,7 +243,7 @@ theorem C06_witness (hcode : Gen.smallerPathLengthFirst = true) :
 
 /-- … and that divergence is exactly the skip rule: the transcription given the length-first rule
 (`Deviations.lengthOnlySkip`, nothing else) reproduces the length-first implementation model -/
-theorem C06_witness_attributed :
+theorem witness_attributed_if_length_first :
     Gen.smallerPathLengthFirst = true →
     (normalizeDefault witness).toOption =
       Rdfc10Spec.canonicalNQuadsWith ⟨false, true⟩ Sha2.sha256Hex witness := by
@@ -213,9 +262,9 @@ def ImplEqSpec (H : Str → Str) : Prop :=
   ∀ (td : Nat → Nat → Bool) (pl : Nat) (D : List Quad) (a : Str),
     normalizeWith H td pl D = .ok a → Rdfc10Spec.canonicalNQuads H D = some a
 
-theorem not_implEqSpec (hcode : Gen.smallerPathLengthFirst = true) : ¬ ImplEqSpec Sha2.sha256Hex := by
+theorem not_implEqSpec_if_length_first (hcode : Gen.smallerPathLengthFirst = true) : ¬ ImplEqSpec Sha2.sha256Hex := by
   intro h
-  obtain ⟨a, b, ha, hb, hne⟩ := C06_witness hcode
+  obtain ⟨a, b, ha, hb, hne⟩ := witness_differs_if_length_first hcode
   rw [h _ _ witness a ha] at hb
   injection hb with hb
   exact hne hb
